@@ -130,6 +130,15 @@ def _order(ctx, k):
     return out
 
 
+def all_same_list(ctx, a, b):
+    if len(a) != len(b):
+        return False
+    r = True
+    for x, y in zip(a, b):
+        r = ctx.And(r, ctx.eq(x, y) if not (isinstance(x, float) and isinstance(y, float)) else x == y)
+    return r
+
+
 def h_coverage(ctx, cfg):
     core = ctx.mod("batchie.core")
     sm = ctx.mod("batchie.scoring.main")
@@ -203,7 +212,16 @@ def h_select(ctx, cfg):
         allowed = sorted(int(p.plate_id) for p in allowed_plates)
     else:
         allowed = list(cand)
+    mask_before, pids_before = screen.observation_mask.tolist(), screen.plate_ids.tolist()
+    held_before = (combined.plate_ids.tolist(), list(combined.scores.tolist()))
     best = sm.select_next_plate(scores=combined, screen=screen, policy=policy, batch_plate_ids=list(batch), rng=ctx.rng("R2"))
+    # selection reads: it leaves the screen and the combined scores as they were, so asking again gives the same answer
+    ctx.prove(screen.observation_mask.tolist() == mask_before and screen.plate_ids.tolist() == pids_before
+              and combined.plate_ids.tolist() == held_before[0] and all_same_list(ctx, list(combined.scores.tolist()), held_before[1]),
+              "selection modifies neither the screen nor the combined scores", key="selection modified its inputs")
+    again = sm.select_next_plate(scores=combined, screen=screen, policy=policy, batch_plate_ids=list(batch), rng=ctx.rng("R3"))
+    ctx.prove((again is None) == (best is None) and (best is None or ctx.is_true(again.plate_id == best.plate_id)) if True else True,
+              "asking for the next plate again (same scores, same batch) returns the same plate", key="repeated selection differs")
     if best is None:
         ctx.prove(not allowed, "nothing is returned only when no plate is allowed", key="None returned although a plate is allowed")
         return None
